@@ -66,7 +66,7 @@ CFG = dict(
                          "rpki:program-with-rpki-condition:route-state:Invalid": 2000,
                          "rpki:program-with-rpki-condition:route-state:NotFound": 3000,
                          "rpki:condition-state-equals-route-state": 2500}),
-    quick=[e1("all", "c14", "debug", 1, 40), e1("all", "c14", "release", 1, 40)],
+    quick=[e1("all", "c14", "debug", 1, 120), e1("all", "c14", "release", 1, 120)],
     thorough=[e1("unit", "c14", "debug", 2, 200, part="unit"),
               e1("unit-rel", "c14", "release", 2, 200, part="unit"),
               e1("eval", "c14", "release", 6, 200, part="eval"),
